@@ -6,6 +6,19 @@ Mutation testing (scratch worktree /tmp/ixs-mut, VERIF_REPO, quick tier, seed 1;
     rangeact-ge        RangeActivity fast path `end > lastKey` -> `>=`            VIOLATION at a RangeAct event
     combine-oldoff     Combine(update,update) returns the NEW offset as oldoff   VIOLATION at a Fill event (olds)
     upddel-keeps-old   Combine(update,delete) keeps the old offset in the delete VIOLATION at a Content event
+  round 2 ("input buffers left unchanged"; scratch worktree /tmp/wt-seedtest-c11b, seeds 1-6; all keep
+  go test ./db19/index/... green -- single threaded tests never look at a merge input again):
+    adopt-passed-chunk (seeded/C11-adopt-passed-chunk-r2) outputChunk adopts a small passed-through chunk
+                       as m.buf when the buffer is empty: flushbuf's buf[:0] + outputSlot then write into
+                       the INPUT chunk's array. MISSED by the first version of this check (inputs were only
+                       compared right after their own merge and no generated input had a large / small /
+                       large chunk run followed by slot output). Now VIOLATION at a Recheck event (input lost
+                       keys / got foreign keys), in 1-4 of the 10 chain and 0-4 of the 10 shaped scenarios
+                       of every seed tried; IxBufStore.tla DevAdoptChunk is the same deviation in the model
+    flush-noclone      flushbuf appends m.buf itself to out (no slc.Clone) and re-uses it: the OUTPUT's
+                       chunk is overwritten by later slots                      VIOLATION at a Content event
+    combine-in-input   outputSlot combines into the input slot (s1 := &in[i][0] style aliasing) -- see
+                       the report of round 2 for the exact mutant texts
   killed by the package's own tests already (so not usable as evidence for this check; all of them are
   also rejected by the trace spec when the tests are ignored -- not re-run for the record):
     passthru-prev (pass-through although the chunk updates the previous output slot), passthru-ge
@@ -16,7 +29,7 @@ Mutation testing (scratch worktree /tmp/ixs-mut, VERIF_REPO, quick tier, seed 1;
 
 META = {
  "engine": "tla-ixbuf",
- "text": "TLC exhausts IxBuf.tla (all valid add/update/delete sequences of up to 5 changes per key over up to 4 buffers, and 2 keys x 2-4 changes x 3 buffers): the merge of the buffers through the code's Combine table equals sequential application to the absent/present state, is itself valid for the base state, never reaches an invalid combination and does not depend on bracketing (up to the offset carried by a delete, a TLC finding); the REAL ixbuf (Insert/Update/Delete incl. returned old offsets, Merge of 2-6 buffers with sizes around the chunk goals and pass-through layouts, merges of merge results, Iter, Len, Check, Lookup, RangeActivity, RangeApproxDelta, ranged and skip-scan iterators) is replayed by TLC trace validation: outputs equal the model's ordered duplicate-free entry list, inputs are compared again after every merge",
+ "text": "TLC exhausts IxBuf.tla (all valid add/update/delete sequences of up to 5 changes per key over up to 4 buffers, and 2 keys x 2-4 changes x 3 buffers): the merge of the buffers through the code's Combine table equals sequential application to the absent/present state, is itself valid for the base state, never reaches an invalid combination and does not depend on bracketing (up to the offset carried by a delete, a TLC finding); the REAL ixbuf (Insert/Update/Delete incl. returned old offsets, Merge of 2-6 buffers with sizes around the chunk goals and pass-through layouts, merges of merge results, Iter, Len, Check, Lookup, RangeActivity, RangeApproxDelta, ranged and skip-scan iterators) is replayed by TLC trace validation: outputs equal the model's ordered duplicate-free entry list. Input buffers left unchanged: TLC exhausts IxBufStore.tla (the code's chunk level merge -- pass-through, flush, in-place combine, Go append/reslice aliasing -- on a heap of shared backing arrays, every key-to-buffer assignment and chunking of 4 keys x 2 buffers, thorough 6 x 2 and 3 x 3 with chained merges): every owner of an earlier layer list still sees the content it saw, the chunk merge equals the abstract merge; in the real code every buffer that was an argument or result of a Merge stays alive and is read again completely (Iter, Len, Check, Lookup of every key) after that merge and after every later one (chains of merges over merge results as in db19, inputs with chosen chunk sizes large/small/large and interleaved single slots, totals on both sides of the goal 24/48/96 boundaries) and must be identical to the content logged before",
  "note": "trusts TLC/CommunityModules Json, the driver's rank->key table (asserted strictly monotone) and offset-id table; change sequences are generated valid (invalid combinations panic by design); ixbuf.Check() reports a false duplicate for the empty key (its previous-key variable starts as \"\"): tolerated exactly for buffers containing the empty key, not part of C11",
  "technique": "TLA+ model checking (TLC) + trace validation of logged calls on the real ixbuf",
 }
@@ -40,15 +53,22 @@ def run(ctx):
     if ctx.thorough():
         ctx.tlc_mc("IxBuf.tla", "IxBuf_thorough.cfg", timeout=3000)
     ctx.tlc_mc("IxBuf.tla", "IxBuf_dev_deladd.cfg", timeout=600, expect_violation="MergeIsSequential", count=False)
+    # storage level: the code's chunk merge on shared backing arrays, owners of the inputs keep seeing the same
+    ctx.tlc_mc("IxBufStore.tla", "IxBufStore_quick.cfg", timeout=900)
+    if ctx.thorough():
+        ctx.tlc_mc("IxBufStore.tla", "IxBufStore_thorough.cfg", timeout=3000)
+        ctx.tlc_mc("IxBufStore.tla", "IxBufStore_thorough2.cfg", timeout=3000)
+    ctx.tlc_mc("IxBufStore.tla", "IxBufStore_dev_adopt.cfg", timeout=600, expect_violation="InputsUnchanged", count=False)
     drv = ctx.go_build("ixbuf")
     trace = ctx.work + "/ixbuf.ndjson"
-    #        nsmall nsized nbig
-    args = [150, 80, 10] if ctx.thorough() else [24, 10, 1]
+    #        nsmall nsized nbig nchain nshaped
+    args = [150, 80, 10, 80, 80] if ctx.thorough() else [24, 10, 1, 10, 10]
     rc, out, summ = ctx.driver(drv, [trace] + args, timeout=900)
     if rc != 0:
         raise vlib.Infra("ixbuf driver rc=%d: %s" % (rc, out[-2000:]))
     ctx.sample_trace_lines(trace, 4)
-    for k in ("merges", "inserts", "contents", "entries_compared", "lookups", "iterops", "rangeacts", "scenarios", "panics", "check_panics"):
+    for k in ("merges", "inserts", "contents", "entries_compared", "lookups", "iterops", "rangeacts", "rechecks", "recheck_lookups",
+              "scenarios", "panics", "check_panics"):
         ctx.cov["real_" + k] = summ.get(k, 0)
     ok = ixutil.validate(ctx, "TraceIxBuf.tla", "TraceIxBuf.cfg", trace, classify, timeout=1800)
     if ok and not ctx.violations:
@@ -58,9 +78,18 @@ def run(ctx):
         ixutil.corrupt_and_expect_rejection(
             ctx, "TraceIxBuf.tla", "TraceIxBuf.cfg", trace,
             pick=lambda ev: ev.get("e") == "Content" and 1 <= len(ev.get("ks", [])) <= 40, mutate=mut)
+
+        # ... and an input that lost a key after a merge (Lookup finds nothing) must be rejected at the Recheck
+        def mut2(ev):
+            i = next(i for i, o in enumerate(ev["lkops"]) if o != "none")
+            ev["lkops"][i], ev["lkoffs"][i] = "none", 0
+        ixutil.corrupt_and_expect_rejection(
+            ctx, "TraceIxBuf.tla", "TraceIxBuf.cfg", trace,
+            pick=lambda ev: ev.get("e") == "Recheck" and 1 <= len(ev.get("ks", [])) <= 40 and ev.get("lkops"), mutate=mut2)
     ctx.assumptions += [
         "rank -> key table strictly monotone (asserted by the driver); offsets logged as ids of a bijective id -> 40 bit offset table, tag bits as op",
         "only valid change sequences are generated (add when absent, update/delete when present, across buffers in merge order); an invalid one would stop validation as a harness error",
-        "merged buffers are treated as immutable afterwards, as in db19 (results may share chunks with inputs)",
+        "merged buffers are treated as immutable afterwards, as in db19 (results may share chunks with inputs); the chunk structure of the real buffers is not observable through the API: it is steered by fill order, add+delete thinning and merge chains, not asserted",
+        "IxBufStore.tla models Go slices as views into arrays with capacity = length for input chunks and clones (spare capacity only makes writes invisible)",
         "TLC exhaustive bounds: see tlc_runs",
     ]
